@@ -6,14 +6,17 @@ import (
 	"crypto"
 	"crypto/x509"
 	"encoding/json"
+	"errors"
 	"fmt"
 	"io"
 	"net"
 	"net/http"
 	"net/http/httptest"
 	"os"
+	"regexp"
 	"runtime"
 	"sort"
+	"strconv"
 	"strings"
 	"sync"
 	"syscall"
@@ -23,8 +26,8 @@ import (
 	"github.com/sassoftware/relic/v8/cmdline/workercmd"
 	"github.com/sassoftware/relic/v8/config"
 	"github.com/sassoftware/relic/v8/internal/workerrpc"
+	"github.com/sassoftware/relic/v8/lib/passprompt"
 	"github.com/sassoftware/relic/v8/token"
-	"github.com/sassoftware/relic/v8/token/tokencache"
 	"github.com/sassoftware/relic/v8/token/worker"
 	"github.com/sassoftware/relic/v8/zz_verif/core"
 	"github.com/sassoftware/relic/v8/zz_verif/simactivate"
@@ -33,21 +36,28 @@ import (
 )
 
 // worker-lifecycle: the real parent side of the worker token (worker.New,
-// spawn, monitor, Close, the retry client) over *simulated worker processes*.
-// A simulated process is what `relic worker` is: it reads the per-process
-// secret from its standard input until EOF, opens the token, wraps it in the
-// key cache, serves the real RPC handler on the inherited listening socket,
-// tells the parent "ready", runs the real token health check loop, and on a
-// fatal token error or SIGTERM tells the parent "stopping", stops accepting,
-// finishes the requests in flight and exits.  The simulator can make it exit
-// during start-up, hang during start-up, and kill it (SIGKILL) at any
-// scheduling point - also in the middle of a request, whose caller then sees
-// a connection reset.  Connections made while no process is accepting wait in
-// the backlog of the listening socket (the parent keeps it open).
+// spawn, monitor, Close, the retry client) and the real worker command
+// (cmdline/workercmd.runWorker: read the per-process secret from standard
+// input, take the inherited listening socket, open the token, rate limiter, key
+// cache, RPC handler, signal watcher, health check loop, "ready", serve;
+// "stopping", drain and exit after a fatal token error, a failed health check
+// or SIGTERM) as a *simulated process*: its pid, standard input, inherited
+// descriptors, signals, notification socket and HTTP server are what the
+// process simulator gives it (seams: os/exec, syscall, os/signal, net,
+// net/http.Server, internal/activation{,/activatecmd}, os.Stdin/Getpid).  The
+// simulator can make a process exit during start-up, hang during start-up, and
+// kill it (SIGKILL) at any scheduling point - also in the middle of a request,
+// whose caller then sees a connection reset.  A dead process executes nothing.
+// Connections made while no process is accepting wait in the backlog of the
+// listening socket (the parent keeps it open).
 
 func init() {
 	core.Register(&core.Scenario{Prop: "C15", Name: "worker-lifecycle", Weight: 1, Fn: c15bRun})
 }
+
+// the token type of the lifecycle scenario: the scripted token, opened by a
+// worker process, as that process sees it
+const c15bTokenType = "simproc"
 
 type c15bProc struct {
 	pid        int
@@ -68,6 +78,11 @@ type c15bProc struct {
 	cause      string
 	served     int
 	probed     bool
+	stdin      io.Reader
+	sigCh      chan<- os.Signal
+	serveDone  chan struct{}
+	serveOnce  sync.Once
+	runErr     error
 }
 
 func (p *c15bProc) Pid() int { return p.pid }
@@ -157,32 +172,127 @@ func (pw *c15bWorld) gone(p *c15bProc) {
 	}
 }
 
-// shutdown is the worker's graceful exit (fatal token error, failed health
-// check, SIGTERM): tell the parent, stop accepting, finish what is in flight.
-func (pw *c15bWorld) shutdown(p *c15bProc, why string) {
+// c15bEnv is the environment of one simulated process (simhook.ProcEnv).
+type c15bEnv struct {
+	pw *c15bWorld
+	p  *c15bProc
+}
+
+var c15bProcRe = regexp.MustCompile(`proc(\d+)`)
+
+// envOf maps the calling goroutine to its process by its task name: the
+// tasks of a process are called proc<pid>..., and goroutines relic starts are
+// named after the task that started them.
+func (pw *c15bWorld) envOf() simhook.ProcEnv {
 	w := pw.w
-	w.Yield("proc-shutdown")
-	pw.gone(p)
-	if p.stopping {
-		return
+	name := w.Sched.Current()
+	if name == "" {
+		w.Yield("proc-ctx") // not adopted yet: enter the schedule, which names it
+		name = w.Sched.Current()
 	}
-	p.stopping, p.ready = true, false
-	w.Logf("process %d stopping: %s", p.pid, why)
-	pw.r.Fault("worker-stopping-" + strings.Fields(why)[0])
-	pw.broadcast()
+	m := c15bProcRe.FindStringSubmatch(name)
+	if m == nil {
+		return nil
+	}
+	pid, _ := strconv.Atoi(m[1])
+	p := pw.procs[pid]
+	if p == nil {
+		return nil
+	}
+	pw.gone(p)
+	return &c15bEnv{pw, p}
+}
+
+func (e *c15bEnv) Pid() int { return e.p.pid }
+
+func (e *c15bEnv) Stdin() io.Reader {
+	if e.p.stdin == nil {
+		return strings.NewReader("")
+	}
+	return e.p.stdin
+}
+
+func (e *c15bEnv) Listener(index uint) (net.Listener, error) {
+	if index != 0 {
+		return nil, fmt.Errorf("no inherited listening socket %d", index)
+	}
+	e.pw.addRef(1)
+	return &c15bListener{pw: e.pw}, nil
+}
+
+func (e *c15bEnv) Ready() error {
+	pw, p := e.pw, e.p
+	pw.gone(p)
+	pw.w.Logf("process %d reports ready", p.pid)
+	p.notify.Ready(p.pid)
+	// one event for the parent at a time (see Stopping)
+	pw.w.Yield("notified")
+	pw.gone(p)
+	return nil
+}
+
+func (e *c15bEnv) Stopping() error {
+	pw, p := e.pw, e.p
+	pw.gone(p)
+	pw.w.Logf("process %d reports stopping", p.pid)
+	pw.r.Fault("worker-stopping")
 	p.notify.Stopping(p.pid)
 	// the notification and the death of the process are two events for the
 	// parent: each is delivered, and what it sets off runs to quiescence,
 	// before the next one happens (otherwise they would race to the parent's
 	// select, a race no seed decides)
-	w.Yield("notified")
+	pw.w.Yield("notified")
 	pw.gone(p)
+	return nil
+}
+
+func (e *c15bEnv) SignalNotify(c chan<- os.Signal, sigs ...os.Signal) {
+	e.pw.gone(e.p)
+	e.p.sigCh = c
+}
+
+func (e *c15bEnv) SignalStop(c chan<- os.Signal) { e.p.sigCh = nil }
+
+// Serve: the process accepts connections from now on.
+func (e *c15bEnv) Serve(l net.Listener, handler http.Handler) error {
+	pw, p, w := e.pw, e.p, e.pw.w
+	pw.gone(p)
+	p.handler = handler
+	p.ready, p.readyAt = true, w.Since()
+	w.Logf("process %d serves", p.pid)
+	pw.broadcast()
+	// the cookie clause, for this incarnation: nothing but the parent's secret opens the door
+	if pw.parentCk != "" {
+		pw.probeCookies(p)
+	}
+	select {
+	case <-p.serveDone:
+	case <-p.deadCh:
+	}
+	w.Yield("serve-returns")
+	pw.gone(p)
+	return http.ErrServerClosed
+}
+
+// Shutdown: stop accepting, finish what is in flight, let Serve return.
+func (e *c15bEnv) Shutdown(ctx context.Context) error {
+	pw, p, w := e.pw, e.p, e.pw.w
+	pw.gone(p)
+	if !p.stopping {
+		p.stopping, p.ready = true, false
+		w.Logf("process %d stops accepting (in flight: %d)", p.pid, p.inflight)
+		pw.broadcast()
+	}
+	// (several goroutines of the process may shut it down at the same time - a
+	// fatal token error in a request and a failed health check: all of them
+	// return once the server is idle, as with net/http)
 	for p.inflight > 0 {
-		<-p.idleCh
+		<-pw.kickCh()
 		w.Yield("proc-drain")
 		pw.gone(p)
 	}
-	pw.die(p, "exit after "+why)
+	p.serveOnce.Do(func() { close(p.serveDone) })
+	return nil
 }
 
 // ---- the token as one process sees it ----
@@ -257,7 +367,7 @@ func (pw *c15bWorld) exec(spec *simhook.ProcSpec) (simhook.Proc, error) {
 	w := pw.w
 	w.Yield("exec")
 	pw.nextPid++
-	p := &c15bProc{pid: pw.nextPid, deadCh: make(chan struct{}), idleCh: make(chan struct{}, 1), bornAt: w.Since(), startBeh: "ok"}
+	p := &c15bProc{pid: pw.nextPid, deadCh: make(chan struct{}), idleCh: make(chan struct{}, 1), serveDone: make(chan struct{}), bornAt: w.Since(), startBeh: "ok"}
 	if pw.closing {
 		pw.spawnsAfterClose++
 	}
@@ -293,9 +403,7 @@ func (pw *c15bWorld) exec(spec *simhook.ProcSpec) (simhook.Proc, error) {
 
 func (pw *c15bWorld) procMain(p *c15bProc, stdin io.Reader) {
 	w := pw.w
-	if stdin != nil {
-		p.cookie, _ = io.ReadAll(stdin)
-	}
+	p.stdin = stdin
 	if p.startDelay > 0 {
 		w.Sleep(p.startDelay)
 	}
@@ -310,18 +418,13 @@ func (pw *c15bWorld) procMain(p *c15bProc, stdin io.Reader) {
 		<-p.deadCh
 		return
 	}
-	base, err := token.Openers[world.SimTokenType](pw.cfg, "tok", nil)
-	must(err)
-	cache := tokencache.New(&c15bToken{Token: base, pw: pw, p: p}, time.Duration(pw.cfg.Server.TokenCacheSeconds)*time.Second)
-	p.handler = workercmd.ZZNewHandler(cache, p.cookie, func() { pw.shutdown(p, "token failure") })
-	p.ready, p.readyAt = true, w.Since()
-	w.Logf("process %d ready", p.pid)
-	pw.broadcast()
-	p.notify.Ready(p.pid)
-	w.Sched.Go(fmt.Sprintf("proc%d/health", p.pid), func() { workercmd.ZZHealthCheck(p.handler) })
-	// the cookie clause, for this incarnation: nothing but the parent's secret opens the door
-	if pw.parentCk != "" {
-		pw.probeCookies(p)
+	// the worker command itself
+	p.runErr = workercmd.ZZRunWorker("tok")
+	pw.gone(p)
+	if p.runErr != nil {
+		pw.die(p, fmt.Sprintf("exit with error: %v", p.runErr))
+	} else {
+		pw.die(p, "exit after shutdown")
 	}
 }
 
@@ -389,11 +492,15 @@ func (pw *c15bWorld) signalTask() {
 			case syscall.SIGKILL:
 				pw.die(p, "SIGKILL")
 			case syscall.SIGTERM:
-				if p.handler == nil {
-					// no handler installed yet: default action
-					pw.die(p, "SIGTERM during start-up")
+				if p.sigCh == nil {
+					// no handler installed (yet): default action
+					pw.die(p, "SIGTERM without handler")
 				} else {
-					w.Sched.Go(fmt.Sprintf("proc%d/sigterm", p.pid), func() { pw.shutdown(p, "SIGTERM") })
+					w.Logf("process %d receives SIGTERM", p.pid)
+					select {
+					case p.sigCh <- syscall.SIGTERM:
+					default:
+					}
 				}
 			}
 		}
@@ -469,10 +576,7 @@ func (pw *c15bWorld) RoundTrip(req *http.Request) (*http.Response, error) {
 		defer func() {
 			p.inflight--
 			if p.inflight == 0 {
-				select {
-				case p.idleCh <- struct{}{}:
-				default:
-				}
+				pw.broadcast()
 			}
 		}()
 		p.handler.ServeHTTP(rec, hreq)
@@ -528,6 +632,7 @@ func c15bRun(r *core.Run) {
 	retriesCfg := core.Pick(t, "retries", 0, 2, 3, 7)
 	timeoutCfg := core.Pick(t, "timeout", 0, 3, 10)
 	numWorkers := core.Pick(t, "numworkers", 0, 1, 2, 3)
+	rateLimit := core.Pick(t, "ratelimit", 0.0, 0.0, 5.0)
 	ntasks := 1 + t.Choose(3, "ntasks")
 	nchaos := t.Choose(7, "chaos-events")
 	limit := retriesCfg
@@ -577,13 +682,15 @@ func c15bRun(r *core.Run) {
 		http.DefaultClient.Transport = oldTransport
 		shared.CurrentConfig = oldCfg
 		simhook.SetExec(nil)
+		simhook.SetProcEnv(nil)
+		delete(token.Openers, c15bTokenType)
 		simhook.SetKill(nil)
 		simhook.SetNetListen(nil)
 	}()
 
 	w := world.Run(r, world.Options{Cooperative: true, MaxSteps: 200000}, func(w *world.World) {
 		cfg := &config.Config{
-			Tokens: map[string]*config.TokenConfig{"tok": {Type: world.SimTokenType, Retries: retriesCfg, Timeout: timeoutCfg}},
+			Tokens: map[string]*config.TokenConfig{"tok": {Type: c15bTokenType, Retries: retriesCfg, Timeout: timeoutCfg, RateLimit: rateLimit, RateBurst: 2}},
 			Keys:   map[string]*config.KeyConfig{},
 			Server: &config.ServerConfig{TokenCacheSeconds: 5, NumWorkers: numWorkers, TokenCheckInterval: 5, TokenCheckTimeout: 3},
 		}
@@ -596,6 +703,18 @@ func c15bRun(r *core.Run) {
 		shared.CurrentConfig = cfg
 		pw = &c15bWorld{w: w, r: r, cfg: cfg, procs: map[int]*c15bProc{}, nextPid: 1000, kick: make(chan struct{}), cur: map[string]*c15Op{}, firstSpawn: true, sigKick: make(chan struct{}, 1)}
 		w.Sched.Go("signals", pw.signalTask)
+		simhook.SetProcEnv(pw.envOf)
+		token.Openers[c15bTokenType] = func(conf *config.Config, tokenName string, prompt passprompt.PasswordGetter) (token.Token, error) {
+			env, _ := pw.envOf().(*c15bEnv)
+			if env == nil {
+				return nil, errors.New("the token hardware is only reachable from inside a worker process")
+			}
+			base, err := token.Openers[world.SimTokenType](conf, tokenName, prompt)
+			if err != nil {
+				return nil, err
+			}
+			return &c15bToken{Token: base, pw: pw, p: env.p}, nil
+		}
 		simhook.SetExec(pw.exec)
 		simhook.SetKill(pw.kill)
 		simhook.SetNetListen(func(network, address string) (net.Listener, error) {
@@ -653,8 +772,8 @@ func c15bRun(r *core.Run) {
 					p := live[w.T.Choose(len(live), "victim")]
 					if a == "kill9" {
 						pw.die(p, "SIGKILL (crash injected)")
-					} else if p.handler != nil && !p.stopping {
-						w.Sched.Go(fmt.Sprintf("proc%d/sigterm", p.pid), func() { pw.shutdown(p, "SIGTERM (injected)") })
+					} else {
+						pw.kill(p.pid, int(syscall.SIGTERM))
 					}
 				default:
 					pw.armed = append(pw.armed, strings.TrimPrefix(a, "be-"))
